@@ -86,13 +86,13 @@ macro("VALID_ShardsList", ["x"],
 contract(MU, "safe_update_file", props=["C06", "C16", "C17", "C05"],
     params={"dataset_root_path": "U", "relative_path": "U", "info": "U", "hashes": "list:U"},
     returns="ref:FileInfo", modifies=["ghost:fs"], fs_root="dataset_root_path",
+    # net file-system effect: exactly the target becomes complete with `info`
+    fs_effects=[("PJOIN(dataset_root_path, relative_path)", "info")],
     requires=["SAFE(relative_path)"],
     ensures=[
         # the target is complete and holds exactly `info`; it never was partial
         ("C06", "dstate(PJOIN(dataset_root_path, relative_path)) == 2"),
         ("C06", "disk_read(PJOIN(dataset_root_path, relative_path)) == info"),
-        # nothing else that was complete changed (only the fresh sibling came and went)
-        ("C06", "forall(lambda p: implies(p != PJOIN(dataset_root_path, relative_path) and old(dstate(p)) == 2, dstate(p) == 2 and disk_read(p) == old(disk_read(p))), p='U')"),
         ("C17", "result.file_path == relative_path"),
         # C16: the recorded checksums are the digests of what is now on disk, in the order of `hashes`
         ("C16", "len(result.hash_checksums) == len(hashes)"),
